@@ -20,6 +20,9 @@ func init() {
 	opts := func(string) simrt.Options { return simrt.Options{MaxSteps: 400000, RotateMaps: true} }
 	for _, p := range []string{"C06", "C15"} {
 		runner.Register(p, runner.Scenario{Name: "federation", Options: opts, Body: fedBody})
+		runner.Register(p, runner.Scenario{Name: "federation-preempt", Options: func(string) simrt.Options {
+			return simrt.Options{MaxSteps: 400000, RotateMaps: true, ParkPermille: 5}
+		}, Body: fedBody})
 	}
 }
 
